@@ -166,6 +166,16 @@ Definition smiles_check_full (m : str) (ia : bool) (r1 r2 : option (mgraph * mgr
 (** FixAAM.fix_aam_rsmi at graph level: every map number (= node id of the parsed graph) is increased by one *)
 Definition fix_aam_graph (G : mgraph) : mgraph := set_amap (relabel N.succ G).
 
+(** NormalizeAAM.extract_subgraph(graph, indices) = graph.subgraph(indices).copy(): the induced subgraph *)
+Definition extract_subgraph (G : mgraph) (indices : list N) : mgraph := induced_sub G indices.
+(** NormalizeAAM.reset_indices_and_atom_map(subgraph): new ids 1.. in node order, atom_map := new id, edges carried over
+    (as a labelled graph; the insertion order of the result is not part of the observable) *)
+Definition reset_indices_by (order : list N) (G : mgraph) : mgraph := set_amap (relabel (sigma_of order) G).
+(** [order] = list(subgraph.nodes()): for a graph built node by node it is the insertion order [node_ids G]; for the copy of a
+    networkx subgraph VIEW it is the iteration order of a Python set when fewer nodes are kept than the graph has (networkx
+    FilterAtlas.__iter__) - an oracle input of the model there *)
+Definition reset_indices (G : mgraph) : mgraph := reset_indices_by (node_ids G) G.
+
 (** * canonical_rsmi = f"{graph_to_smi(Gc)}>>{graph_to_smi(Hc)}" for a writer [W] (RDKit: oracle) *)
 Definition canonical_rsmi (W : mgraph -> str) (r : option (mgraph * list (N * N) * mgraph)) : option str :=
   match r with
@@ -209,5 +219,7 @@ Definition run_bal_str (formula : list (str * option str)) (s : str) : tok :=
 Definition run_expand (nR : nat) (maps : list Z) : tok :=
   L [tlist I (fst (expand_sides nR maps)); tlist I (snd (expand_sides nR maps))].
 Definition run_fixaam (G H : mgraph) : tok := L [tmgraph (fix_aam_graph G); tmgraph (fix_aam_graph H)].
+Definition run_subgraph (G : mgraph) (keep order : list N) : tok :=
+  L [tmgraph (extract_subgraph G keep); tmgraph (reset_indices_by order (extract_subgraph G keep)); tmgraph (reset_indices G)].
 Definition run_equiv (gs : list its) : tok :=
   L [tlist (fun p : nat * nat => L [tnat (fst p); tnat (snd p)]) (fst (check_equivariant_graph gs)); tnat (snd (check_equivariant_graph gs))].
